@@ -44,10 +44,13 @@ func call(scope *slip.Scope, src string) (bool, string) {
 }
 
 // exclusions of open findings that concern the predicates; each is a predicate over the case.
-func predExcluded(objs ...Obj) string {
+// transitive: the case asserts transitivity (triples, hash histories). C16-F6 (a rational is rounded to the
+// float's format before the comparison) explains failures of transitivity only; symmetry, reflexivity,
+// the implication chain and sxhash consistency of a lossy pair are still checked.
+func predExcluded(transitive bool, objs ...Obj) string {
 	for i := range objs {
 		for j := i + 1; j < len(objs); j++ {
-			if h.ExclOn("eq-through-float") && lossy(objs[i], objs[j]) {
+			if transitive && h.ExclOn("eq-through-float") && lossy(objs[i], objs[j]) {
 				return "eq-through-float"
 			}
 			if h.ExclOn("ratio-bignum-eq") && (ratioBig(objs[i], objs[j]) || ratioBig(objs[j], objs[i])) {
@@ -87,7 +90,7 @@ func runPair(c PCase) *h.Result {
 	if res.NonTrivial {
 		res.Classes = append(res.Classes, "pair:one-cluster")
 	}
-	if tag := predExcluded(c.X, c.Y); tag != "" {
+	if tag := predExcluded(false, c.X, c.Y); tag != "" {
 		res.Skip = tag
 		return res
 	}
@@ -183,7 +186,7 @@ func runTriple(c PCase) *h.Result {
 	if res.NonTrivial {
 		res.Classes = append(res.Classes, "triple:one-cluster")
 	}
-	if tag := predExcluded(c.X, c.Y, *c.Z); tag != "" {
+	if tag := predExcluded(true, c.X, c.Y, *c.Z); tag != "" {
 		res.Skip = tag
 		return res
 	}
